@@ -95,7 +95,7 @@ def bindings():
     return (pickle.load, pickle.loads, _pickle.load, _pickle.loads)
 
 
-def probe_all(U):
+def probe_all(U, files=False):
     """Behaviour of the four paths on the flagged pickle: 'ran' / 'blocked' / 'other:<exc>'."""
     import vp_sink
     out = []
@@ -154,6 +154,28 @@ def probe_all(U):
                 pass
             if vp_sink.LOG:
                 ran.append(di)
+        if i % 2 == 0 and files:
+            # a real file opened by a relative name; then the working directory moves into the interpreter's own
+            # library directories (where a loader might think it is looking at the installation's data files)
+            import os
+            import sysconfig
+            here = os.getcwd()
+            with open("c12_probe.pkl", "wb") as fh:
+                fh.write(FLAGGED)
+            for di, target in enumerate((sysconfig.get_paths()["purelib"], sysconfig.get_paths()["stdlib"], os.path.dirname(os.__file__), "/")):
+                del vp_sink.LOG[:]
+                st = open("c12_probe.pkl", "rb")
+                try:
+                    os.chdir(target)
+                    fn(st)
+                except BaseException:
+                    pass
+                finally:
+                    os.chdir(here)
+                    st.close()
+                if vp_sink.LOG:
+                    ran.append(f"relative-name-then-chdir-{di}")
+            os.remove("c12_probe.pkl")
         out.append("hostile-ran:" + ",".join(map(str, ran)) if ran else "hostile:none-ran")
     del vp_sink.LOG[:]
     return tuple(out)
@@ -252,7 +274,7 @@ def run_history(ctx, mods, hist):
                     return
             steps.append(op)
             agg.count("steps")
-            beh = probe_all(U)
+            beh = probe_all(U, files=(len(steps) == len(hist)))
             agg.count("probes", 8 + 4 * len(HOSTILE))
             agg.hist("behaviours", ",".join(beh))
             for i in range(4):
